@@ -119,4 +119,82 @@ mod verif_c02_draw_min {
     fn c02_draw_two_members_tail_zombie() {
         draw_min(2, 2);
     }
+
+    /// one live member; a println (one text line) or an ordinary draw that the limiter refuses
+    fn draw_one(print: bool, admitted: bool) {
+        let z0: usize = kani::any();
+        let f: usize = kani::any();
+        kani::assume(z0 <= 2 && f <= 2);
+        let now = mk_instant(1_000_000, 0);
+        unsafe {
+            RL_VERDICT = admitted;
+            SLEN = 0;
+            DRAWS = 0;
+            LOG_FLOOR = L;
+            NREMOVED = 0;
+            FAIL_DRAW_AT = usize::MAX;
+        }
+        let mut ms = rig_multi(null_target(4, 10, f));
+        ms.zombie_lines_count = VisualLines::from(z0);
+        let mut d = DrawState::default();
+        d.lines = Vec::with_capacity(3);
+        d.lines.push(boxed_line(b'A'));
+        ms.members.push(MultiStateMember { draw_state: Some(d), is_zombie: false });
+        ms.ordering.push(0);
+        rep12!(r, {
+            if r < L {
+                stack_push(T_LOG);
+            } else if r < L + z0 {
+                stack_push(T_ZOMB);
+            } else if r < L + z0 + f {
+                stack_push(T_OLD);
+            }
+        });
+        let r = if print {
+            let mut lines: Vec<LineType> = Vec::with_capacity(2);
+            lines.push(LineType::Text(String::from("x")));
+            ms.draw(true, Some(lines), now)
+        } else {
+            ms.draw(false, None, now)
+        };
+        assert!(r.is_ok());
+        std::mem::forget(r);
+        unsafe {
+            if print {
+                // the printed line goes directly below the log: the kept rows of finished bars are given up (by design), the old
+                // frame is erased, the text row is NOT part of what the next draw erases
+                assert!(DRAWS == 1);
+                assert!(SLEN == L + 2 && STACK[L] == b'x' && STACK[L + 1] == b'A');
+                assert!(zombie_lines(&ms) == 0 && last_count(&ms) == 1);
+            } else if admitted {
+                assert!(DRAWS == 1 && SLEN == L + z0 + 1 && STACK[L + z0] == b'A');
+                assert!(zombie_lines(&ms) == z0 && last_count(&ms) == 1);
+            } else {
+                // a refused draw changes nothing at all
+                assert!(DRAWS == 0 && SLEN == L + z0 + f);
+                assert!(zombie_lines(&ms) == z0 && last_count(&ms) == f);
+            }
+        }
+        kani::cover!(z0 == 2 && f == 2);
+        kani::cover!(z0 == 0);
+        std::mem::forget(ms);
+    }
+
+    // @harness id=C03 tier=deep timeout=3000 mem=28 checks=rust
+    // @bounds MultiState::draw(force, Some([Text x])) (= MultiProgress::println) with one live member, 0..=2 kept rows, old frame of 0..=2 rows: the text row lands directly below the log and above the frame, is never counted, no log row is erased
+    #[kani::proof]
+    #[kani::unwind(6)]
+    //@STUBS std now widthascii noterm rlctl noweight dttcontract rows1 noremove lineclone norwlock
+    fn c03_draw_println_one_member() {
+        draw_one(true, true);
+    }
+
+    // @harness id=C03 tier=quick timeout=3000 mem=14 checks=rust
+    // @bounds an ORDINARY MultiState::draw that the limiter refuses, same states: nothing is painted and the row accounting is untouched
+    #[kani::proof]
+    #[kani::unwind(6)]
+    //@STUBS std now widthascii noterm rlctl noweight dttcontract rows1 noremove lineclone norwlock
+    fn c03_draw_refused_changes_nothing() {
+        draw_one(false, false);
+    }
 }
